@@ -22,6 +22,13 @@ pub struct Case {
     pub single_result: bool,
     /// all TEXT values are free of delimiter, quote and line-break characters
     pub delimiter_free: bool,
+    /// CSV: the delimiter handed to OutputFormat::CSV (the command line always uses ";", the public API takes any string)
+    #[serde(default = "default_delimiter")]
+    pub csv_delimiter: String,
+}
+
+fn default_delimiter() -> String {
+    ";".to_string()
 }
 
 pub struct C17;
@@ -312,13 +319,15 @@ impl Property for C17 {
                 }
             }
         }
-        Case { columns, prints, format, single_result: t.chance(1, 2), delimiter_free }
+        // (no generated value contains any of these delimiters)
+        let csv_delimiter = t.pick(&[";", ";", "||", "\t\t", "§", "#|#"]).to_string();
+        Case { columns, prints, format, single_result: t.chance(1, 2), delimiter_free, csv_delimiter }
     }
 
     fn check(&self, case: &Case, _ctx: &Ctx, obs: &mut Obs) -> Result<(), Failure> {
         let format = match case.format.as_str() {
             "json" => OutputFormat::Json,
-            "csv" => OutputFormat::CSV(";".to_string()),
+            "csv" => OutputFormat::CSV(case.csv_delimiter.clone()),
             _ => OutputFormat::Text,
         };
         let printer = CapPrinter { lines: Vec::new(), stop_after: None, running: Default::default() };
@@ -329,6 +338,38 @@ impl Property for C17 {
         }
         let lines: Vec<String> = out.printer().lines.clone();
         let all_rows: Vec<&Vec<V>> = case.prints.iter().flat_map(|p| p.iter()).collect();
+
+        // the same printer used for one more result with as many columns under other names, in another order
+        // (an interactive session prints one statement after the other): its records carry the new names
+        if case.format == "json" && case.prints.first().map(|p| !p.is_empty()).unwrap_or(false) {
+            obs.label("printer-reused-for-other-columns");
+            let renamed: Vec<String> = case.columns.iter().rev().enumerate().map(|(i, c)| format!("{}_{}", c, i)).collect();
+            let rows = &case.prints[0];
+            let rr = ResultRow { data: rows.iter().map(|r| Row::new(r.iter().map(to_real).collect())).collect(), columns: renamed.clone() };
+            let before = lines.len();
+            out.print(&rr, case.single_result);
+            let extra: Vec<String> = out.printer().lines[before..].iter().filter(|l| !l.is_empty()).cloned().collect();
+            let context = format!("a further result with the columns {:?} printed by the same printer gives {:?}", renamed, extra);
+            if extra.len() != rows.len() {
+                return Err(Failure::new("json: record-count (printer reused)", format!("{} rows but {} records\n  {}", rows.len(), extra.len(), context)));
+            }
+            for (row, line) in rows.iter().zip(extra.iter()) {
+                match parse_json(line) {
+                    Ok(J::Obj(items)) => {
+                        let keys: Vec<&String> = items.iter().map(|(k, _)| k).collect();
+                        if keys != renamed.iter().collect::<Vec<_>>() {
+                            return Err(Failure::new("json: keys (printer reused)", format!("keys {:?} but columns {:?}\n  {}", keys, renamed, context)));
+                        }
+                        for ((_, got), want) in items.iter().zip(row.iter()) {
+                            if let Err(e) = json_matches(want, got) {
+                                return Err(Failure::new("json: value (printer reused)", format!("{}\n  {}", e, context)));
+                            }
+                        }
+                    }
+                    other => return Err(Failure::new("json: invalid-json (printer reused)", format!("record {:?}: {:?}\n  {}", line, other.map(|_| ()), context))),
+                }
+            }
+        }
 
         // non-triviality
         let mut has_null = false;
@@ -387,7 +428,7 @@ impl Property for C17 {
                 }
             }
             "csv" => {
-                let header = case.columns.join(";");
+                let header = case.columns.join(&case.csv_delimiter);
                 if all_rows.is_empty() {
                     // no record at all: the header precedes the first record, so nothing (or just the header) is fine
                     if lines.iter().any(|l| !l.is_empty() && l != &header) {
@@ -406,7 +447,7 @@ impl Property for C17 {
                 if case.delimiter_free && !ambiguous_empty {
                     for (row, line) in all_rows.iter().zip(recs.iter()) {
                         let has_array = row.iter().any(|v| matches!(v, V::Array(_)));
-                        let fields: Vec<&str> = line.split(';').collect();
+                        let fields: Vec<&str> = line.split(case.csv_delimiter.as_str()).collect();
                         if fields.len() != case.columns.len() {
                             return fail("field-count", format!("record {:?} has {} fields for {} columns", line, fields.len(), case.columns.len()));
                         }
